@@ -9,6 +9,7 @@ from ..ctx import sites
 from ..frontend import Repo
 from ..model import is_subscribe_call
 from ..rules import cell_name, has_guard, locals_by_init, names_assigned_const, names_augmented
+from . import sync_common as SY
 from . import typestate_common as TC
 
 MG = "reactivex/operators/_merge.py"
@@ -41,8 +42,11 @@ def check(repo: Repo, rep: Report) -> None:
         TC.check_operator(repo, rep, "K1-signature", key,
                           lambda k, slot: "Merging must pass inner elements and the first error straight through and complete only "
                                           "from the completion-join paths.")
+    rep.rule("J4-registered-before-subscribe", "an inner's holder is in the group before the inner is subscribed (a synchronously "
+                                               "completing inner must find it there to remove it)", floor=2)
     for name in ("merge_", "merge_all_"):
         root = repo.fn(MG, f"{name}.subscribe")
+        SY.rule_registered_before_subscribe(rep, "J4-registered-before-subscribe", root)
         outer = root.child("on_completed")
         rep.require(outer is not None, f"{name}.subscribe.on_completed")
         # roles: the stopped flag is the cell the outer on_completed sets True; the active measure is the integer cell
@@ -110,6 +114,11 @@ def check(repo: Repo, rep: Report) -> None:
     rep.ob("J2-max-concurrent", ioc, "the active count drops only when nothing is queued", ok,
            "the active count is decremented although a queued inner takes the slot (the limit drifts)")
     TC.composite_uses(repo, rep, "J3-delegations", COMPOSITES)
+    TC.pipelines_exact(repo, rep, "J3-delegations", {
+        ("reactivex/operators/_flatmap.py", "_flat_map_internal"): [["map_indexed", "merge_all"]],
+        ("reactivex/observable/merge.py", "merge_"): [["merge_all"]],
+        ("reactivex/operators/__init__.py", "concat_map"): [["map", "merge"]],
+    })
     cm = repo.fn("reactivex/operators/__init__.py", "concat_map")
     ok = any(isinstance(n, ast.Call) and call_name(n) == "merge" and any(k.arg == "max_concurrent" and u(k.value) == "1" for k in n.keywords) for n in cm.all_nodes())
     rep.ob("J3-delegations", cm, "concat_map = map + merge(max_concurrent=1)", ok, "concat_map does not merge with max_concurrent=1")
